@@ -489,9 +489,9 @@ type PeerEvent struct {
 // Cancel closes the topic event handler
 func (t *TopicEventHandler) Cancel() {
 	topic := t.topic
-	t.err = fmt.Errorf("topic event handler cancelled by calling handler.Cancel()")
 
 	topic.evtHandlerMux.Lock()
+	t.err = fmt.Errorf("topic event handler cancelled by calling handler.Cancel()")
 	delete(topic.evtHandlers, t)
 	t.topic.evtHandlerMux.Unlock()
 }
